@@ -47,7 +47,7 @@ def main(argv=None):
         freeze_heap()
         for (campaign, _, _) in prop.campaigns[args.tier]:
             # campaigns whose single plans take seconds (large worlds) contribute two plans
-            n_c = 2 if campaign in getattr(prop, "chunk_of", {}) else args.n
+            n_c = 1 if campaign in getattr(prop, "chunk_of", {}) else args.n
             idx = list(range(n_c))
             a = digests(prop, args.tier, seed, idx, campaign)
             # second pass in a different order: catches state leaking between runs despite reset()
